@@ -44,7 +44,8 @@ HARNESS = dict(
     # -O0: ~45 vector types x all operators + ~60 matrix/vector types need > 2 min at -O1 with both sanitizers;
     # the UBSan checks that cannot concern lane values (null, alignment, vptr, pointer-overflow, object-size) are left out
     # for the same reason; signed overflow, shifts, division, bounds (std::array indexing), bool, float casts stay on, ASan stays on
-    flags=["-O0", "-fno-sanitize=null,alignment,vptr,pointer-overflow,object-size,nonnull-attribute,returns-nonnull-attribute"],
+    # -g1 (line tables and function names for the sanitizer reports, no local-variable info) saves ~6 s of the compile
+    flags=["-O0", "-g1", "-fno-sanitize=null,alignment,vptr,pointer-overflow,object-size,nonnull-attribute,returns-nonnull-attribute"],
 )
 RULE = ("cases: operator/function x scalar type {f32,f64,i32,i64,i16,u32,bool,complex} x shape {1,2,3,4,8,2x2,4x2,2x4} x form {vv,vs,sv} with "
         "lanes drawn independently from boundary values (+-0, +-inf, NaN, denormals, extremes, INT_MIN/MAX, UINT_MAX) and random values; "
